@@ -50,7 +50,7 @@ theorem cPass3_eq (act : List Nat) (rp : Polys) (cs : List CEntry) (a : Action) 
   cases a.kind
   case connChange =>
     simp only
-    have := foldl_map_comm (fun (u : End × AdaptaVerif.Model.ActionQueue.Pt) (e : CEntry) =>
+    have := foldl_map_comm (fun (u : End × AdaptaVerif.Model.ActionQueue.CEnd) (e : CEntry) =>
       eGen act rp (VKey.ofEnd a.id u.1) ⟨u.2.x, u.2.y⟩ e) a.conns cs
     simp only [cGen, eGen] at this ⊢
     exact this
@@ -183,7 +183,7 @@ theorem ePass3_scratch (act : List Nat) (rp : Polys) (e : CEntry) (a : Action) (
     (ePass3 act rp e a).scratch act rp := by
   unfold ePass3
   split
-  · have : ∀ (l : List (End × AdaptaVerif.Model.ActionQueue.Pt)) (e : CEntry), e.scratch act rp →
+  · have : ∀ (l : List (End × AdaptaVerif.Model.ActionQueue.CEnd)) (e : CEntry), e.scratch act rp →
         (l.foldl (fun e u => eGen act rp (VKey.ofEnd a.id u.1) ⟨u.2.x, u.2.y⟩ e) e).scratch act rp := by
       intro l; induction l with
       | nil => intro e h; exact h
